@@ -3,8 +3,10 @@
 Correspondence between the real module cores (harness/modprobe.cpp = /repo/modules/csv/csvparser.cpp and
 /repo/modules/utf8/utf8helper*.cpp compiled under ASan+UBSan+_GLIBCXX_ASSERTIONS) and the Lean model
 (lean/BlocV/Model/Mod/{Csv,Utf8}.lean through the driver `blocv`). The same case line goes to both sides;
-the answers are compared textually, except inside the C-level hazard regions which must be listed known
-findings (known_findings_c18.json / known_findings.json)."""
+the answers are compared textually. The two C-level hazards this half once had (utf8 `at` outside the string, csv
+`deserialize_next` on an empty field table) are repaired (known_findings.json: status fixed): the model has no hazard
+answer any more, a crash of the probe is a violation. The plugin's own `at` (range check of plugin_utf8.cpp) is driven
+through the real module by vlib/props/c18f.py (family u8.plugin_at); modprobe transcribes it."""
 import itertools
 import json
 import os
@@ -141,8 +143,8 @@ class C18(Check):
     harness = "modprobe"
     trusted_base = [
         "Lean 4.33 kernel + elaborator (theorems audited to depend only on propext, Classical.choice, Quot.sound)",
-        "harness/modprobe.cpp + vlib comparator (canonical lines describe what CSVParser / UTF8String did; the probe's "
-        "guards before deserialize_next on an empty table and before operator[] out of range are exactly the hazard predicates of the model)",
+        "harness/modprobe.cpp + vlib comparator (canonical lines describe what CSVParser / UTF8String did; no call is guarded "
+        "by the probe; `at` goes through a transcription of the plugin's range check, and through the real plugin in the blocprobe half)",
         "Lean compiler/runtime executing Model and Spec in blocv (correspondence only)",
         "the charmap tables' `code` field equals the packed UTF-8 bytes: checked for every Unicode scalar value by `u8 tableid` on every run",
     ]
@@ -156,26 +158,21 @@ class C18(Check):
             "deserialize_next as a client would); random larger rows (1..6 fields, length 0..12, bytes mostly from {sep,enc,20,0a,"
             "0d,61,62,00,ff}) for every pair; `de`: every string of length <= 5 over {sep,enc,20,0a,61} (3906 lines) plus random "
             "longer non-serialized lines (error flag / position); `feed`: every sequence of 1..3 lines, each of length <= 2 over "
-            "{sep,enc,0a,61} (9723 sequences, reaches the empty-table hazard of deserialize_next) plus random sequences; two "
-            "unguarded `feedraw` cases inside the hazard. utf8: `dec` of ALL byte strings of length <= 3 over {00 41 7f 80 bf c0 "
+            "{sep,enc,0a,61} (9723 sequences, reaches deserialize_next on an empty field table: the line starts a record) plus "
+            "random sequences. utf8: `dec` of ALL byte strings of length <= 3 over {00 41 7f 80 bf c0 "
             "c1 c2 df e0 ed ef f0 f4 f5 ff} (4369) and of length 4 over {41 80 8f 90 9f a0 bf e0 ed f0 f4} (14641), random valid "
             "strings (scalars around 7f/80, 7ff/800, d7ff, e000, ffff/10000, 10ffff and inside/outside the charmap pages) and "
             "random ill-formed ones (byte mutated / deleted / inserted / truncated); at, substr (1 and 2 arguments), remove, "
             "insert (code point), insert (utf8 object) and insert of the object into itself on all boundary strings of length <= 2 + random strings with "
             "positions/counts from {-1,0,1,2,3,4,n-1,n,n+1,INT64_MAX,INT64_MIN,null}; `tableid`: for every Unicode scalar value "
-            "1..10FFFF the decoder stores exactly the packed UTF-8 bytes (checked in C++); two unguarded `atraw` cases. The "
-            "implementation's canonical answer must equal the Lean model's answer textually (and the Lean spec's answer where "
-            "the driver gives one); a model answer `hazard` is accepted only with kf=<listed known finding>.")
+            "1..10FFFF the decoder stores exactly the packed UTF-8 bytes (checked in C++); `at` outside the string (negative, "
+            "count, far beyond) answers INDEX_RANGE. The implementation's canonical answer must equal the Lean model's answer "
+            "textually (and the Lean spec's answer where the driver gives one); no hazard answer exists any more: a crash "
+            "of the probe is a violation.")
 
     def __init__(self, tier, seed):
         super().__init__(tier, seed)
-        p = os.path.join(build.VERIF, "known_findings_c18.json")
-        if os.path.exists(p):
-            have = set(f["id"] for f in self.findings)
-            for f in json.load(open(p)).get("findings", []):
-                if f.get("property") == self.pid and f.get("id") not in have:
-                    self.findings.append(f)
-        c18f.load_findings(self)          # C18F
+        # known_findings.json is authoritative (the side files known_findings_c18.json / _c18f.json are no longer read)
         self.sz = SIZES[tier]
         self.distinct = _Counter()
         self._n = 0
@@ -308,9 +305,10 @@ class C18(Check):
             for _ in range(sz["feed_rand_main"] if (sep, enc) == MAIN else sz["feed_rand"]):
                 k = self.rng.randint(1, 5)
                 add(pre + "feed " + lst([self.rand_bytes(pool, 0, 8, 0.03) for _ in range(k)]))
-        # the two unguarded hazard witnesses
-        add("csv 2c 22 feedraw .,61")
-        add("csv 2c 22 feedraw 6122,61")
+        # the former hazard witnesses (deserialize_next on an empty field table): ordinary cases now
+        add("csv 2c 22 feed .,61")
+        add("csv 2c 22 feed 6122,61")
+        add("csv 2c 22 feed 6122,.,61,2261")
         return out
 
     def main_row_batches(self):
@@ -444,8 +442,9 @@ class C18(Check):
             nops += len(out) - n0
         self.stats["u8_ops"] = {"strings": len(subset), "cases": nops}
         add("u8 tableid")
-        add("u8 atraw 616263 10000000")
-        add("u8 atraw 616263 -1")
+        # the former out-of-bounds witnesses: INDEX_RANGE now
+        add("u8 at 616263 10000000")
+        add("u8 at 616263 -1")
         return out
 
     # ---------------------------------------------------------------- enumeration
